@@ -171,6 +171,10 @@ WalkStrideOutcomes(spec, st, pending, perm) ==
 \* no further step is possible without a new message
 Quiescent(spec, st, perm) ==
   \A o \in WalkStrideOutcomes(spec, st, NoMsg, perm) : o.to = NONE
+\* ... where the step relation leaves a choice (several candidates without a guard: error or an arbitrary
+\* one), stopping is truthful when "no transition" is among the allowed outcomes of a further step
+MayRest(spec, st, perm) ==
+  \E o \in WalkStrideOutcomes(spec, st, NoMsg, perm) : o.to = NONE
 
 CanConsume(spec, st) ==
   StNode(st) \in DOMAIN spec.nodes /\ spec.nodes[StNode(st)].btype = "message"
